@@ -1094,7 +1094,10 @@ func ruleIdentitySuffix(c *Ctx, r *Rep) {
 			direct = ru.Line
 		}
 		if len(ru.RHS) >= 2 && ru.RHS[0] == "term" && ru.RHS[len(ru.RHS)-1] == "suffix" && strings.Contains(ru.Action, "SuffixList") {
-			listed = ru.Line
+			// an action that looks at the identity itself normalises the tree at parse time: the other way to repair this
+			if !strings.Contains(ru.Action, "TermTypeIdentity") {
+				listed = ru.Line
+			}
 		}
 	}
 	if direct == 0 || listed == 0 {
@@ -1821,5 +1824,53 @@ func ruleForeignIndex(c *Ctx, r *Rep) {
 	}
 	if n == 0 {
 		r.Undecided("foreignindex:census", token.NoPos, "no foreign index found")
+	}
+}
+
+// ---------------------------------------------------------------------------------------------------------------------
+// R-C16-readtoeof: whole inputs are read to the end of the stream, not to a size somebody reported.
+
+func init() {
+	reg(&Rule{ID: "R-C16-readtoeof", Props: []string{"C16"}, Floor: 1,
+		Doc: "the iterator behind --raw-input --slurp hands the query the whole text of its reader: it reads with io.ReadAll (or io.Copy) and neither it nor anything it calls in the command sizes the read by Stat — a file's reported size is not its length (procfs and sysfs report 0, a file may grow between Stat and read); io.ReadFull and io.ReadAtLeast, which stop at a byte count, are not used on inputs at all",
+		Run: ruleReadToEOF})
+	addDecided("C16", " Raw slurped input is read to end of stream, never to a reported size (R-C16-readtoeof).")
+}
+
+func ruleReadToEOF(c *Ctx, r *Rep) {
+	p := c.Cli
+	info := p.TypesInfo
+	nWhole := 0
+	for _, fd := range c.Decls(p) {
+		ast.Inspect(fd.Body, func(m ast.Node) bool {
+			call, ok := m.(*ast.CallExpr)
+			if !ok {
+				return true
+			}
+			nm := calleeName(info, call)
+			switch nm {
+			case "io.ReadFull", "io.ReadAtLeast":
+				r.Bad("readtoeof:"+declKey(fd)+":"+nm, call.Pos(), "%s in %s reads a counted number of bytes from an input: a size taken from Stat is not the length of a procfs file (0) or of a file that is still growing — `gojq -Rs . /proc/version` would print \"\"", nm, declKey(fd))
+			case "os.File.Stat", "os.Stat", "os.Lstat":
+				// allowed where the result decides existence or kind, not a length: its Size() must not be called
+				ast.Inspect(fd.Body, func(q ast.Node) bool {
+					if sc, ok := q.(*ast.CallExpr); ok {
+						if sn := calleeName(info, sc); sn == "fs.FileInfo.Size" || sn == "os.FileInfo.Size" || strings.HasSuffix(sn, "FileInfo.Size") {
+							r.Bad("readtoeof:"+declKey(fd)+":Size", sc.Pos(), "%s takes the Size() of a file it has Stat-ed: input lengths are found by reading to end of stream", declKey(fd))
+						}
+					}
+					return true
+				})
+			case "io.ReadAll":
+				if fd.Name.Name == "Next" {
+					nWhole++
+					r.OK("readtoeof:"+declKey(fd), call.Pos(), "%s reads its reader with io.ReadAll", declKey(fd))
+				}
+			}
+			return true
+		})
+	}
+	if nWhole == 0 {
+		r.Undecided("readtoeof:census", token.NoPos, "no Next method of the command reads its reader with io.ReadAll (the raw slurp iterator was expected)")
 	}
 }
